@@ -102,6 +102,13 @@ CLAIMED.update({
             "7 C19"),
 })
 
+CLAIMED.update({
+    "C12": ("Coq proof (verified translation validator: an independent Fortran-precedence reading of the source and the C reading of the output are normalised and compared; soundness of sign normalisation and of structural agreement over R for every interpretation) applied to every tree the implementation produces + exact-text correspondence of the transformer and the regex pre-pass + Fortran-vs-C numeric oracle",
+            "Theorems in Props/C12.v: if the validator accepts a parse tree, the emitted C text (read with C precedence, pow(a,b), y[IDX_x]) and the Fortran source (read with ** right-associative and above unary minus, n(idx_x)) have the same value for every interpretation of literals, variables, abundances, intrinsic functions and exponentiation; sign normalisation keeps values. The extracted validator runs on the tree Lark returned for every bundled and generated rate string; a rejection is a concrete failing expression. Three known findings are proved on Lark's actual trees (a**b**c left-associative with values 512 vs 64, signed literal base, n(idx_X) unresolved for multi-character names).",
+            "Which tree Lark's Earley parser returns is observed per expression, not modelled, so the guarantee is per translated expression, not for a grammar class; the pre-pass model covers non-overlapping matches; intrinsic names are passed through unchanged (a Fortran-only intrinsic surfaces as an undeclared name in C10).",
+            "7 C12"),
+})
+
 NOT_YET = {}
 
 
